@@ -25,6 +25,16 @@ def random_session(rng, profile="small", solve_calls=("find_answer",), max_produ
             v = {"kind": "int", "lo": -40, "hi": 40, "wide": True}
         else:
             v = dict(rng.choice(SMALL_TEMPLATES))
+        if rng.random() < 0.2:      # one bool_array / int_array call (1-D or 2-D, possibly empty) instead of a single variable
+            shape = rng.choice([[0], [1], [2], [3], [1, 2], [2, 1], [2, 2], [0, 2]])
+            n = shape[0] if len(shape) == 1 else shape[0] * shape[1]
+            if product * _dom(v) ** n > max_product or len(decl) + n > 6:
+                return
+            product *= _dom(v) ** n
+            decl.extend(dict(v) for _ in range(n))
+            steps.append({"a": "bool_array", "shape": shape} if v["kind"] == "bool" else
+                         {"a": "int_array", "shape": shape, "lo": v["lo"], "hi": v["hi"]})
+            return
         if product * _dom(v) > max_product or len(decl) >= 6:
             return
         product *= _dom(v)
